@@ -47,6 +47,7 @@ flight = Flight()
 def reset():
     flight.value = None
     flight.state = 'idle'
+    lane_stats[0] = lane_stats[1] = 0
     del queue[:]
     inside[0] = inside[1] = 0
     total[0] = 0
@@ -87,6 +88,22 @@ def hand_over(x):
 def take_over():
     ready.wait()
     return handed[0]
+
+
+lane = threading.Lock()
+lane_stats = [0, 0]          # got the lane, went without
+
+
+def timed_lane(x):
+    got = lane.acquire(timeout=0.05)
+    try:
+        lane_stats[0 if got else 1] += 1
+        t = total[0]
+        t = t + x
+        return t
+    finally:
+        if got:
+            lane.release()
 
 
 def ab():
